@@ -14,7 +14,7 @@ ENTRY = {'coq_dir': 'C05',
          "component, ws/quic shapes, the node's own listen address). After every event the transport calls, protocol notifications, "
          'manager events, return code and a dump of peer states / pending / counted sets are compared with the extracted Coq model. (2) '
          'transport streams (harness/src/c05_tcp.rs; first number 9000 TCP / 9001 WebSocket / 9002 QUIC; one TCP and one WebSocket case in '
-         '20 quick / 400 thorough; QUIC: the aux stream of the thorough tier, the harness built a second time with --features quic, 500 '
+         '20 quick / 600 thorough; QUIC: the aux stream of the thorough tier, the harness built a second time with --features quic, 500 '
          'cases + corpus/C05-quic): the REAL TcpTransport / WebSocketTransport / QuicTransport (VerifTcpTransport / VerifWsTransport / '
          'VerifQuicTransport facades) is driven over loopback sockets through its Transport trait and Stream::poll_next (polled until '
          'Pending without a self-wake) with adaptive call sequences (5-40 steps quick, 8-70 thorough, max_parallel_dials from {8,1,2,3}): '
